@@ -4,6 +4,7 @@ For every STROBE permutation `F` and ARBITRARY collections of shares.
 Clause kinds: (U) unconditional; (R) reduction to an explicit MAC collision of the default-transcript
 MAC `macOf F none (t, M, R)` on two distinct triples.
 -/
+import StarModel.Lemmas.Skeleton
 import StarModel.Lemmas.Adss
 
 namespace StarModel.Props.C05
